@@ -344,7 +344,7 @@ where
         tier.pick(1_200, 10_000)
     }
     fn rule(&self) -> String {
-        "matrices of {1,2,3,7,8,9,15,16,17,31,33,64,100,127,254,255} columns x 2^3..2^8 (quick) / 2^11 (thorough) rows, per-column polynomials expanded from generated seeds, blowup 2..16, segment width N in {1,2,4,8,16} (column counts that are and are not multiples of N), StarkDomain::from_twiddles with offset {1, generator, random}; ColMatrix::interpolate_columns / evaluate_columns_over / evaluate_columns_at and RowMatrix::evaluate_polys / evaluate_polys_over and a single Segment::<N>::new at an arbitrary base-column offset vs Horner at generated (row, column) sample positions; non-trivial = more than one column and column count not a multiple of N, or an extension field".into()
+        "matrices of {1,2,3,7,8,9,15,16,17,31,33,64,100,127,254,255} columns x 2^3..2^8 (quick) / 2^11 (thorough) rows, per-column polynomials expanded from generated seeds, blowup 2..16, segment width N in {1,2,4,8,16} (column counts that are and are not multiples of N), StarkDomain::from_twiddles with offset {1, generator, random} and StarkDomain::new(&air) (accessors, get_ce_x_at, get_ce_x_power_at = (offset*g^step)^power at steps of both halves of the domain); ColMatrix::interpolate_columns / evaluate_columns_over / evaluate_columns_at and RowMatrix::evaluate_polys / evaluate_polys_over and a single Segment::<N>::new at an arbitrary base-column offset vs Horner at generated (row, column) sample positions; non-trivial = more than one column and column count not a multiple of N, or an extension field".into()
     }
     fn required_labels(&self, _t: Tier) -> Vec<String> {
         vec!["cols%N!=0".into(), "cols%N==0".into(), "N=1".into(), "N=16".into(), "air-domain:ce<lde".into()]
@@ -411,6 +411,17 @@ where
         ensure!(domain.ce_domain_size() == big && domain.ce_domain_generator().to_u128() == wbig, "domain/ce", "constraint evaluation domain accessors");
         let step = pick_index(c.positions[0], big);
         ensure!(domain.get_ce_x_at(step).to_u128() == fp.mul(moff, fp.pow(wbig, step as u128)), "domain/get_ce_x_at", "get_ce_x_at({step})");
+        // documented: get_ce_x_power_at(step, power, s^power) = (s * g^step)^power, at steps of both halves of the domain
+        for (k, power) in [1u64, 2, n as u64, (n / 2) as u64, big as u64 - 1, 1 + c.positions[2] as u64].into_iter().enumerate() {
+            let st = match k % 3 {
+                0 => step,
+                1 => big - 1 - pick_index(c.positions[3], big / 2),
+                _ => pick_index(c.positions[4], big / 2),
+            };
+            let x = fp.mul(moff, fp.pow(wbig, st as u128));
+            let got = domain.get_ce_x_power_at(st, power, off.exp((power as u32).into()));
+            ensure!(got.to_u128() == fp.pow(x, power as u128), "domain/get_ce_x_power_at", "from_twiddles domain of {big} points: get_ce_x_power_at({st}, {power}, offset^{power}) is not (offset * g^{st})^{power}");
+        }
 
         // RowMatrix over the domain (offset = domain offset) and over the default domain (offset = GENERATOR)
         for over in [true, false] {
@@ -499,6 +510,18 @@ where
             let moff_g = fp.generator;
             ensure!(dom.lde_domain_size() == big && dom.trace_to_lde_blowup() == blowup, "domain-from-air/accessors", "StarkDomain::new accessors");
             obs.label(if dom.ce_domain_size() < dom.lde_domain_size() { "air-domain:ce<lde" } else { "air-domain:ce=lde" });
+            {
+                let ce = dom.ce_domain_size();
+                let wce = ref_root::<B<E>>(ce.trailing_zeros());
+                ensure!(ce == 2 * n && dom.ce_domain_generator().to_u128() == wce, "domain-from-air/ce", "constraint evaluation domain of the TinyAir (degree 2): size {ce}, expected {}", 2 * n);
+                for (k, power) in [1u64, 2, n as u64, ce as u64 - 1, 1 + c.positions[2] as u64].into_iter().enumerate() {
+                    let st = if k % 2 == 0 { ce - 1 - pick_index(c.positions[3], ce / 2) } else { pick_index(c.positions[4], ce / 2) };
+                    let x = fp.mul(moff_g, fp.pow(wce, st as u128));
+                    ensure!(dom.get_ce_x_at(st).to_u128() == x, "domain-from-air/get_ce_x_at", "get_ce_x_at({st})");
+                    let got = dom.get_ce_x_power_at(st, power, B::<E>::GENERATOR.exp((power as u32).into()));
+                    ensure!(got.to_u128() == fp.pow(x, power as u128), "domain-from-air/get_ce_x_power_at", "StarkDomain::new domain of {ce} constraint evaluation points: get_ce_x_power_at({st}, {power}, offset^{power}) is not (offset * g^{st})^{power}");
+                }
+            }
             let ev = polys.evaluate_columns_over(&dom);
             ensure!(ev.num_rows() == big && ev.num_cols() == cols, "evaluate_columns_over(air-domain)/shape", "shape {}x{} expected {big}x{cols}", ev.num_rows(), ev.num_cols());
             let rm = RowMatrix::<E>::evaluate_polys_over::<8>(&polys, &dom);
